@@ -8,7 +8,9 @@ import PV.Generated.C12
 namespace PV.Props.C12
 open PV PV.RunLoop
 
-/-- a session after the handshake: loop running, no kex step armed -/
+/-- a session after the handshake: loop running, no kex step armed.  This includes the window of a
+re-exchange in which our own KEXINIT is already out (`in_kex`, `local_kex_init` set, user sends blocked)
+and the peer's has not been processed yet: `_send_kex_init` arms no expectation. -/
 structure Established (s : St) : Prop where
   active : s.active = true
   noErr : s.err = none
@@ -123,19 +125,19 @@ theorem C12 (s : St) (hs : Established s) (t : Nat) (hun : handled Generated.C12
     step Generated.C12.tables s (.recv t payload x) = replied s t :=
   unhandled_gets_unimplemented _ names_lookup_total s hs t hun payload x
 
-/-- the role × class × auth-handler situations a transport can be in -/
-def situations : List (Bool × Bool × AuthH) :=
+/-- the role × class × auth-handler × (quiet | own KEXINIT of a re-exchange sent) situations -/
+def situations : List (Bool × Bool × AuthH × Bool) :=
   [true, false].flatMap fun server => [true, false].flatMap fun srt =>
-    [AuthH.none, .std, .only, .gssMic].map fun a => (server, srt, a)
+    [AuthH.none, .std, .only, .gssMic].flatMap fun a => [false, true].map fun inKex => (server, srt, a, inKex)
 
 /-- a concrete established, authenticated session in a given situation -/
-def sample (c : Bool × Bool × AuthH) : St :=
+def sample (c : Bool × Bool × AuthH × Bool) : St :=
   { server := c.1, srt := c.2.1, advertiseStrict := true, serverSigAlgs := true, agreedStrict := true,
-    initialKexDone := true, clearToSend := true, authH := c.2.2, authenticated := true,
-    chans := [0], seen := [0], seqIn := 7, seqOut := 9 }
+    initialKexDone := true, clearToSend := !c.2.2.2, inKex := c.2.2.2, localKexInit := c.2.2.2,
+    authH := c.2.2.1, authenticated := true, chans := [0], seen := [0], seqIn := 7, seqOut := 9 }
 
-/-- the executable model, evaluated on all 256 type numbers in all 16 situations (kernel-checked
-table): whenever the type has no handler, the step is exactly `replied` -/
+/-- the executable model, evaluated on all 256 type numbers in all 32 situations (kernel-checked
+table; half of the situations are inside a re-exchange): whenever the type has no handler, the step is exactly `replied` -/
 theorem all_256_types_table :
     ∀ c ∈ situations, ∀ t ∈ List.range 256, handled Generated.C12.tables (sample c) t = false →
       step Generated.C12.tables (sample c) (.recv t [] default) = replied (sample c) t := by
@@ -185,19 +187,24 @@ theorem constants_match :
 
 /-! ## non-vacuity -/
 
-example : Established (sample (true, false, .std)) := ⟨rfl, rfl, rfl, rfl⟩
-example : situations.length = 16 := by decide
+example : Established (sample (true, false, .std, false)) := ⟨rfl, rfl, rfl, rfl⟩
+/-- … also in the middle of a re-exchange we started -/
+example : Established (sample (true, false, .std, true)) ∧ (sample (true, false, .std, true)).inKex = true :=
+  ⟨⟨rfl, rfl, rfl, rfl⟩, rfl⟩
+example : (step Generated.C12.tables (sample (false, false, .std, true)) (.recv 200 [] default)).tx
+    = [⟨MSG_UNIMPLEMENTED, 9, 7⟩] := by decide +kernel
+example : situations.length = 32 := by decide
 /-- type 200 at a server after authentication: unhandled, answered with UNIMPLEMENTED(7) -/
-example : handled Generated.C12.tables (sample (true, false, .std)) 200 = false := by decide +kernel
-example : (step Generated.C12.tables (sample (true, false, .std)) (.recv 200 [1, 2, 3] default)).tx
+example : handled Generated.C12.tables (sample (true, false, .std, false)) 200 = false := by decide +kernel
+example : (step Generated.C12.tables (sample (true, false, .std, false)) (.recv 200 [1, 2, 3] default)).tx
     = [⟨MSG_UNIMPLEMENTED, 9, 7⟩] := by decide +kernel
 /-- type 62 (no debug name) at a client -/
-example : (step Generated.C12.tables (sample (false, false, .std)) (.recv 62 [] default)).active = true := by
+example : (step Generated.C12.tables (sample (false, false, .std, false)) (.recv 62 [] default)).active = true := by
   decide +kernel
 /-- the hypothesis of `partial_lookup_kills_session` is satisfiable: the same tables with a partial lookup -/
-example : (step { Generated.C12.tables with namesTotal := false } (sample (true, false, .std))
+example : (step { Generated.C12.tables with namesTotal := false } (sample (true, false, .std, false))
     (.recv 200 [] default)).err = some .keyError := by decide +kernel
 /-- handled types are not touched by the theorem: a channel message takes the channel branch -/
-example : handled Generated.C12.tables (sample (true, false, .std)) 94 = true := by decide +kernel
+example : handled Generated.C12.tables (sample (true, false, .std, false)) 94 = true := by decide +kernel
 
 end PV.Props.C12
